@@ -282,6 +282,7 @@ PTRef MainSolver::rewriteMaxArity(PTRef root) {
 std::unique_ptr<Model> MainSolver::getModel() {
     if (!config.produce_models()) { throw ApiException("Producing models is not enabled"); }
     if (status != s_True) { throw ApiException("Model cannot be created if solver is not in SAT state"); }
+    if (not modelComputed) { throw ApiException("Model is not available: :produce-models was not enabled during the last check-sat"); }
 
     ModelBuilder modelBuilder{logic};
     smt_solver->fillBooleanVars(modelBuilder);
@@ -420,7 +421,8 @@ sstat MainSolver::solve() {
     }
     status = solve_(en_frames);
 
-    if (status == s_True && config.produce_models()) thandler->computeModel();
+    modelComputed = (status == s_True && config.produce_models());
+    if (modelComputed) thandler->computeModel();
     smt_solver->clearSearch();
     return status;
 }
